@@ -388,7 +388,7 @@ fn collect_line_metadata(content: &str) -> (r_: Vec<LineMetadata>)
 
 // ---------------------------------------------------------------- hunks_to_diff_ops: imara hunks -> ops that tile both sequences
 /// stand-ins for imara_diff::Diff (never inspected) and imara_diff::Hunk (its two public fields)
-pub struct Diff { pub _opaque: () }
+#[verifier::external_body] pub struct Diff { _o: () }
 pub struct Hunk { pub before: core::ops::Range<u32>, pub after: core::ops::Range<u32> }
 pub uninterp spec fn hunks_of(d: &Diff) -> Seq<Hunk>;
 /// O1 stub for `diff.hunks()`
